@@ -1,7 +1,7 @@
 (* Props/C10.v -- statements claimed for C10 (orient_), about Model/TriaOrient.v. *)
 From Coq Require Import List Arith Permutation Reals.
 From LaPyV Require Import Base.Scalar Base.Vec3 Base.ListAux Model.TetMesh Model.TriaAdj Model.TriaOrient
-  Proofs.TriaAdjP Proofs.TriaOrientP.
+  Proofs.TriaAdjP Proofs.TriaOrientP Proofs.FloodP Proofs.OrientCorrectP.
 Import ListNotations.
 Close Scope R_scope.
 
@@ -48,3 +48,47 @@ Theorem C10_oriented_mesh_is_fixed_point : forall v ts, is_oriented ts = true ->
   orient Rops v ts = Ok (ts, 0).
 Proof. exact orient_fixed_point. Qed.
 Print Assumptions C10_oriented_mesh_is_fixed_point.
+
+(* ---- the central claim.  For every edge-manifold ([manifold]: no edge in more than two triangles), orientable ([orientable]: some
+   choice of triangles to flip makes every directed half-edge unique) mesh in which each triangle shares an edge with another one
+   ([shares_edge]), one or several components, any pattern of flipped triangles, any triangle numbering, two-triangle pillows
+   included: orient_ terminates within its fuel, raises nothing, and the triangles it returns are consistently oriented.
+   The hypotheses are the brute-force definitions of Proofs/TriaAdjP.v, not the model's own sparse-matrix queries. *)
+Theorem C10_orient_terminates_and_result_is_oriented : forall (K : Type) (o : Ops K) v ts,
+  Forall distinct_tri ts -> ts <> [] -> manifold ts -> shares_edge ts -> orientable ts ->
+  exists ts' n, orient o v ts = Ok (ts', n) /\ is_oriented ts' = true.
+Proof. exact @orient_correct. Qed.
+Print Assumptions C10_orient_terminates_and_result_is_oriented.
+
+(* the flood itself, for every symmetric sign-consistent neighbour table (several components, repeated entries): within S n
+   iterations every triangle carries a positive multiple of sg a * kappa a with kappa constant along every entry *)
+Theorem C10_flood_reaches_every_triangle_with_a_consistent_sign : forall (e : list (nat * nat * Z)) n (sg : nat -> Z),
+  (forall a, sg a = 1%Z \/ sg a = (-1)%Z) ->
+  (forall a b s, In (a, b, s) e -> In (b, a, s) e) ->
+  (forall a b s, In (a, b, s) e -> a <> b /\ a < n /\ b < n /\ s = (sg a * sg b)%Z) ->
+  0 < n ->
+  exists v kap, flood (S n) e n (column e n 0) = Ok v /\ length v = n /\ kconst e kap /\
+    forall a, a < n -> exists x m, val v a = Some x /\ (m > 0)%Z /\ x = (m * (sg a * kap a))%Z.
+Proof. exact flood_correct. Qed.
+Print Assumptions C10_flood_reaches_every_triangle_with_a_consistent_sign.
+
+(* a second call returns 0 and changes nothing *)
+Theorem C10_second_call_returns_zero_and_changes_nothing : forall v ts ts' n,
+  Forall distinct_tri ts -> ts <> [] -> manifold ts -> shares_edge ts -> orientable ts ->
+  orient Rops v ts = Ok (ts', n) -> orient Rops v ts' = Ok (ts', 0).
+Proof. exact orient_idempotent. Qed.
+Print Assumptions C10_second_call_returns_zero_and_changes_nothing.
+
+(* the hypotheses are met by concrete meshes (here: a tetrahedron with one flipped triangle followed by a pillow whose two
+   triangles run the same way -- the input on which the unrepaired code raised ValueError, finding F24) *)
+Definition c10_witness : list tri := [(0, 2, 1); (0, 3, 1); (1, 2, 3); (2, 0, 3); (4, 5, 6); (4, 5, 6)].
+Example C10_hypotheses_are_satisfiable :
+  Forall distinct_tri c10_witness /\ c10_witness <> [] /\ manifold c10_witness /\ shares_edge c10_witness /\ orientable c10_witness /\
+  is_oriented c10_witness = false.
+Proof.
+  assert (Hd : Forall distinct_tri c10_witness) by (apply distinct_b_ok; vm_compute; reflexivity).
+  split; [exact Hd|]. split; [discriminate|]. split; [apply manifold_b_ok; [exact Hd|vm_compute; reflexivity]|].
+  split; [apply shares_edge_b_ok; vm_compute; reflexivity|].
+  split; [|vm_compute; reflexivity].
+  apply (orientable_b_ok c10_witness [false; true; false; false; false; true] Hd); [discriminate|reflexivity|vm_compute; reflexivity].
+Qed.
